@@ -31,6 +31,20 @@ pub fn resolve_addr(
         match value
         {
             expr::Value::Integer(bigint) => bigint,
+
+            // A failed assertion inside the expression is an
+            // error once guesses are no longer allowed
+            expr::Value::FailedConstraint(msg) =>
+            {
+                if ctx.is_last_iteration
+                {
+                    report.message(msg.clone());
+                    return Err(());
+                }
+
+                util::BigInt::new(0, None)
+            }
+
             _ => util::BigInt::new(0, None),
         }
     };
